@@ -210,6 +210,7 @@ class TreeSim(taps.Sim):
         pos0 = sec.position
         cap0 = parent.capital
         booked0 = self.comm_booked
+        ntr0 = len(self.trade_log)
         integer = bool(sec.integer_positions)
         comm = m.comm
         self.n_alloc = getattr(self, "n_alloc", 0) + 1
@@ -236,7 +237,10 @@ class TreeSim(taps.Sim):
             raise
         pos1 = sec.position
         cap1 = parent.capital
-        q = pos1 - pos0
+        # the traded quantity as executed (the position difference loses it when |q| << |position|)
+        q = sum(tr[2] for tr in self.trade_log[ntr0:])
+        if abs((pos1 - pos0) - q) > 1e-9 * (abs(pos0) + abs(q) + 1e-300) + 1e-12:
+            self.violation("c05_position", "position moved by %r, executed quantity %r" % (pos1 - pos0, q), {})
         if abs(amount) < TOL:
             if q != 0 or cap1 != cap0:
                 self.violation("c05_zero_amount", "allocate(0) changed position by %r / cash by %r" % (q, cap1 - cap0), flags)
@@ -246,8 +250,12 @@ class TreeSim(taps.Sim):
             return r
         if price < 0:
             return r
-        self.fire("alloc_judged")
         unit = price * mult
+        if abs(pos0 * unit) >= 1e13 or abs(amount) >= 1e13:
+            # beyond float resolution of whole units / cents (positions this large only arise from weights on float residue)
+            self.incon("astronomic_magnitude")
+            return r
+        self.fire("alloc_judged")
         tol = 1e-8 + 1e-9 * max(abs(amount), abs(unit))
         value0 = pos0 * price * mult
         if amount == -value0 and abs(pos0) >= TOL:
@@ -391,7 +399,7 @@ class TreeSim(taps.Sim):
                 nv = m.notional(n)
                 pnl = v - (n.last_value + n.flows_today)
                 if isz(n.last_notl) and isz(nv):
-                    if abs(pnl) > band and changed:
+                    if abs(pnl) > band and changed and n.last_notl == 0.0 and nv == 0.0:
                         worst = "must"
                     elif not isz(pnl):
                         worst = worst or "either"
@@ -400,8 +408,12 @@ class TreeSim(taps.Sim):
             else:
                 bottom = n.last_value + n.flows_today
                 if isz(bottom):
-                    if abs(v) > band and changed:
+                    # 'must' only when the zero base is structurally exact (nothing ever moved through the node before
+                    # today, no flows today): otherwise the implementation's base may carry float residue
+                    exact = n.last_value == 0.0 and n.flows_today == 0.0 and (n.first_activity_t is None or n.first_activity_t == m.t)
+                    if abs(v) > band and changed and exact:
                         worst = "must"
+                        self._hz_detail = "%s: last value %r + net flows %r = 0, value %r (was %r at the last observation)" % (n.path, n.last_value, n.flows_today, v, self.last_obs_val.get(n.path, 0.0))
                     elif not isz(v) or self.touched(n):
                         # the implementation's value may carry float residue where the model's is exactly zero
                         worst = worst or "either"
@@ -493,7 +505,7 @@ class TreeSim(taps.Sim):
         hz = self.zero_base_hazard() if root.stale else None
         rv = self.guarded(lambda: root.value, "observe")
         if hz == "must":
-            self.c10("zero_base_missed", "a strategy's value moved off a zero base but no error was raised", {})
+            self.c10("zero_base_missed", "a strategy's value moved off a zero base but no error was raised: %s" % getattr(self, "_hz_detail", ""), {})
         mv = m.value(m.root)
         scale = m.gross()
         tol = REL * scale
